@@ -26,6 +26,8 @@ Put(f, k, v) == [x \in (DOMAIN f) \cup {k} |-> IF x = k THEN v ELSE f[x]]
 Min(a, b) == IF a < b THEN a ELSE b
 Size(szx) == 2 ^ (Min(szx, 6) + 4)
 
+MaxAfterViolation == 2
+
 NoReq == [b1n |-> -1, b1m |-> -1, b1s |-> -1, b2n |-> -1, b2s |-> -1]
 
 ObsInit == [ nsub   |-> 0, ndone |-> 0,
@@ -42,6 +44,7 @@ ObsInit == [ nsub   |-> 0, ndone |-> 0,
              rep    |-> 0,                      \* representation the result is served from (0: none delivered yet)
              asm    |-> [len |-> -1, cid |-> -1, ok |-> FALSE],   \* last body the server reassembled
              viol   |-> FALSE,                  \* an ETag change or a modelled sequencing violation was delivered
+             nafter |-> 0,                      \* new requests the client sent after that
              bad    |-> {} ]
 
 Flag(o, c) == [o EXCEPT !.bad = @ \cup {c}]
@@ -69,7 +72,12 @@ ObsReqBlock2(o, e) ==
 ObsReq(o, e) ==
   LET lr == [b1n |-> e.b1n, b1m |-> e.b1m, b1s |-> e.b1s, b2n |-> e.b2n, b2s |-> e.b2s] IN
   IF e.rt THEN o
-  ELSE IF o.viol \/ o.ndone > 0 THEN [o EXCEPT !.lr = lr]     \* after a violation only the completion is judged
+  ELSE IF o.ndone > 0 THEN [o EXCEPT !.lr = lr]
+  ELSE IF o.viol
+    \* after a violation only the completion is judged -- and that there is one: a client that keeps asking
+    \* (more than MaxAfterViolation further requests) does not "end with an error"
+    THEN FlagIf([o EXCEPT !.lr = lr, !.nafter = @ + 1], o.nafter + 1 > MaxAfterViolation,
+                "C05_ChangedOrViolatedEndsInError")
   ELSE LET o1 == IF e.b1n >= 0 THEN ObsReqBlock1(o, e) ELSE o
            o2 == IF e.b2n >= 0 THEN ObsReqBlock2(o1, e) ELSE o1
        IN [o2 EXCEPT !.lr = lr]
@@ -85,11 +93,19 @@ ObsResp(o, e) ==
                 /\ \/ e.b1n # lr.b1n                                   \* wrong block number acknowledged
                    \/ (lr.b1m = 0 /\ (e.b1m = 1 \/ e.code = 95))       \* more-flag / 2.31 on the final block
       reqoff == IF lr.b2n >= 0 THEN lr.b2n * Size(lr.b2s) ELSE 0
+      \* a block that announces more blocks carries exactly its size.  One case is left to the body clauses
+      \* instead (statement silent): the very first block of the representation (answer to the request itself)
+      \* with no payload at all or with a whole number of blocks -- nothing delivered so far is out of place, the
+      \* client may go on from the byte count it has (the next request must ask for exactly that offset, and a
+      \* returned body must be the representation) or fail
+      lenbad == e.b2m = 1 /\ e.plen # Size(e.b2s)
+      resync == lr.b2n < 0 /\ e.plen % Size(e.b2s) = 0
       b2viol == /\ e.b2n >= 0 /\ ok2xx
                 /\ \/ e.b2n * Size(e.b2s) # reqoff                     \* wrong block number
-                   \/ (e.b2m = 1 /\ e.plen # Size(e.b2s))              \* missing payload bytes
+                   \/ (lenbad /\ ~resync)                              \* missing (or surplus) payload bytes
       changed == o.b2act /\ ok2xx /\ e.b2n >= 0 /\ e.etag # o.etag     \* the representation changed between blocks
-      first == lr.b2n <= 0 /\ (lr.b1n < 0 \/ lr.b1m = 0)               \* answers the complete request
+      first == /\ (lr.b2n < 0 \/ (lr.b2n = 0 /\ o.rep = 0))             \* answers the complete request
+               /\ (lr.b1n < 0 \/ lr.b1m = 0)
   IN IF b1viol \/ b2viol \/ changed THEN [o EXCEPT !.viol = TRUE]
      ELSE LET o1 == IF e.b1n >= 0 THEN [o EXCEPT !.b1srv = e.b1s] ELSE o
               o2 == IF first /\ ok2xx /\ e.code # 95
